@@ -235,11 +235,10 @@ var (
 
 var reTemplate = regexp.MustCompile(`^(/[a-z0-9._~-]+)+$`)
 
-// genSpecDirClass switches on the class "spec location that names a directory (trailing slash)". On the current
-// tree the API handler serves the spec at <dir>/swagger.json while the page references <dir>/ (see
-// testdata/pending/spec-url-names-a-directory.json and the report of this package): the class is generated only
-// once that finding is repaired or registered, because a check must be silent on the tree it is meant to pass on.
-const genSpecDirClass = false
+// genSpecDirClass switches on the class "spec location that names a directory (trailing slash)". The API handler
+// used to serve the spec at <dir>/swagger.json while the page referenced <dir>/ (finding F39, repaired in /repo,
+// canary regress/C20/f39-spec-url-names-a-directory.json); the class is generated since.
+const genSpecDirClass = true
 
 var specDirURLs = []string{"/specs/", "/a/b/", "https://h.test/dir/", "/api/spec/", "/dir/sub/"}
 
